@@ -475,6 +475,42 @@ def native_catalogue():
         except Exception as e:  # noqa
             failures.append(dict(key="cid-defect-internal", what="CID %r (%s) raised %s: %s" % (rows, name, type(e).__name__, e),
                                  args=dict(defect=name)))
+    # field rows: format x length shape x example x empty mark x type -- only ever accepted or refused with an
+    # InterfaceError naming the row; under the fixed format only one exact positive length is admissible
+    lengths = ["", "3", "...5", "3...", "2...4", "2, 4", "0", "3...3", " 3 ", "0x3"]
+    examples = ["", "x", "abc", "abcdefg", " ", "12"]
+    for fmt in ("fixed", "delimited", "ods", "excel"):
+        for length in lengths:
+            for example in examples:
+                for mark in ("", "X"):
+                    for type_name, rule in (("Text", ""), ("Integer", ""), ("Choice", "abc, x, 12"), ("", "")):
+                        n += 1
+                        rows = [["d", "format", fmt], ["f", "x", example, mark, length, type_name, rule]]
+                        try:
+                            load(rows)
+                            accepted = True
+                        except errors.InterfaceError as e:
+                            accepted = False
+                            if "(R2C" not in str(e):
+                                failures.append(dict(key="cid-defect-row", what="field row %r under %s: the error text does not "
+                                                     "name row 2: %s" % (rows[1], fmt, e), args=dict(rows=rows)))
+                        except Exception as e:  # noqa
+                            failures.append(dict(key="cid-defect-internal", what="field row %r under %s raised %s: %s" % (
+                                rows[1], fmt, type(e).__name__, e), args=dict(rows=rows)))
+                            continue
+                        exact = length.strip() in ("3", "3...3", "0x3")
+                        if fmt == "fixed" and accepted and not exact:
+                            failures.append(dict(key="cid-defect-accepted", what="fixed format: field row %r was accepted although its "
+                                                 "length is not one exact positive number" % (rows[1],), args=dict(rows=rows)))
+                        if accepted is False and example == "" and (fmt != "fixed" or exact) and length != "0":
+                            failures.append(dict(key="cid-sound-rejected", what="sound field row %r under %s was refused" % (rows[1], fmt),
+                                                 args=dict(rows=rows)))
+    # a field or check type is known as soon as its class exists (also when it is defined after a first Cid was made)
+    from props.c20 import native_resolution
+    res = native_resolution()
+    n += res["count"]
+    for f in res["failures"]:
+        failures.append(dict(key="cid-known-type", what=f["what"], args=f.get("args")))
     return dict(count=n, failures=failures, samples=samples)
 
 
